@@ -311,24 +311,31 @@ func c20Run(env *c20Env, c c20Case, mk func() vsChooser, maxSteps int) c20Case {
 					avail += sl.size()
 				}
 			}
-			if avail == 0 {
-				// a real read would block: do only what readMore does first (the model moves and consumes nothing)
+			// Peek(size)/ReadBytes(size) call readMore — whose first action is pendingData.moveTo(recvBuf) — only if
+			// recvBuf holds less than size; size = what is asked for, at least 1, at most what has arrived (a real
+			// read of more would block).  The moveTo is done here explicitly, the read itself then never blocks.
+			need := k
+			if need > avail {
+				need = avail
+			}
+			if need < 1 {
+				need = 1
+			}
+			if s.recvBuf.Len() < need {
 				s.pendingData.moveTo(s.recvBuf)
-				continue
 			}
-			if k == 0 {
-				_, _ = s.BufferReader().Peek(1)
-				continue
+			kk := k
+			if kk > s.recvBuf.Len() {
+				kk = s.recvBuf.Len()
 			}
-			if k > avail {
-				k = avail
+			if kk > 0 {
+				b, _ := s.BufferReader().ReadBytes(kk)
+				for _, x := range b {
+					cb.consumed = append(cb.consumed, int(x))
+				}
+				cb.syncN += len(b)
+				s.BufferReader().ReleasePreviousRead()
 			}
-			b, _ := s.BufferReader().ReadBytes(k)
-			for _, x := range b {
-				cb.consumed = append(cb.consumed, int(x))
-			}
-			cb.syncN += len(b)
-			s.BufferReader().ReleasePreviousRead()
 		}
 	}
 	if c.Setter {
@@ -475,7 +482,7 @@ func c20Run(env *c20Env, c c20Case, mk func() vsChooser, maxSteps int) c20Case {
 	{
 		evIdx := 0
 		for _, st := range steps {
-			if st.Tid == 0 && st.Ev != nil && st.Ev.Kind == c20KMark {
+			if st.Tid == 0 && st.Ev != nil && st.Ev.Kind == c20KMark && (st.Ev.A == c20MarkData || st.Ev.A == c20MarkClose) {
 				if st.Ev.A == c20MarkData && evIdx < len(c.Inb) {
 					arrived = append(arrived, c.Inb[evIdx]...)
 				}
@@ -590,6 +597,9 @@ func c20Run(env *c20Env, c c20Case, mk func() vsChooser, maxSteps int) c20Case {
 				o10["finality: a Flush issued after a Close() had returned failed with "+f.cls+" instead of ErrStreamClosed"] = true
 			}
 		}
+	}
+	if finished && finalState == uint32(streamClosed) && inTable == 0 && len(c.Recv) > 0 {
+		o10["SIG:C10:late-arrival-moved-into-recvBuf-after-clean-is-never-recycled|residue: the stream is closed, cleaned and out of the table, yet recvBuf still holds received bytes (their share-memory slices are never recycled)"] = true
 	}
 	if c.Deadlock {
 		o10["SIG:C10:Close-inside-OnData-waits-for-its-own-goroutine|a Close() never returned: close() waits on asyncGoroutineWg, which only the waiting thread(s) can release; the stream stays in the table, no close callback, peer not told"] = true
@@ -982,3 +992,160 @@ func TestVerif_C20(t *testing.T) {
 	t.Logf("emitted %d cases (%d systematic, %d exhaustive complete=%v, %d late-callbacks)", id, sys, exh, complete, late)
 	o.emit(map[string]interface{}{"summary": true, "exhaustive": exh, "exhaustive_complete": complete})
 }
+
+// ---- real session pair (probabilistic support): numbered multi-slice messages from a continuous sender, a callback
+// that pauses now and then so that several flushes are pending when the callback goroutine walks pendingData ----
+type c20tCb struct {
+	buf      []byte
+	next     uint32 // next expected message number
+	bad      string
+	msgLen   int
+	calls    int
+	running  int32
+	overlap  int32
+	pauseAt  int
+	done     chan struct{}
+	total    uint32
+	finished bool
+}
+
+func (c *c20tCb) OnData(r BufferReader) {
+	if atomic.AddInt32(&c.running, 1) > 1 {
+		atomic.StoreInt32(&c.overlap, 1)
+	}
+	defer atomic.AddInt32(&c.running, -1)
+	c.calls++
+	if c.pauseAt > 0 && c.calls%c.pauseAt == 0 {
+		time.Sleep(300 * time.Microsecond)
+	}
+	n := r.Len()
+	if n == 0 {
+		return
+	}
+	b, err := r.ReadBytes(n)
+	if err != nil {
+		return
+	}
+	c.buf = append(c.buf, b...)
+	r.ReleasePreviousRead()
+	for len(c.buf) >= c.msgLen {
+		m := c.buf[:c.msgLen]
+		seq := uint32(m[0])<<24 | uint32(m[1])<<16 | uint32(m[2])<<8 | uint32(m[3])
+		if c.bad == "" {
+			if seq != c.next {
+				c.bad = fmt.Sprintf("message %d arrived where message %d was expected", seq, c.next)
+			} else {
+				for i := 4; i < c.msgLen; i++ {
+					if m[i] != byte(seq+uint32(i)) {
+						c.bad = fmt.Sprintf("message %d is corrupted at byte %d", seq, i)
+						break
+					}
+				}
+			}
+		}
+		c.next++
+		c.buf = c.buf[c.msgLen:]
+		if c.next == c.total && !c.finished {
+			c.finished = true
+			close(c.done)
+		}
+	}
+}
+func (c *c20tCb) OnLocalClose()  {}
+func (c *c20tCb) OnRemoteClose() {}
+
+type c20tCase struct {
+	ID      int      `json:"id"`
+	MsgLen  int      `json:"msg_len"`
+	N       int      `json:"n"`
+	Pause   int      `json:"pause_every"`
+	Got     uint32   `json:"got"`
+	Calls   int      `json:"calls"`
+	Oracle  []string `json:"oracle"`
+	Skipped string   `json:"skipped"`
+}
+
+func TestVerif_C20T(t *testing.T) {
+	seed := uint64(venvInt("VERIF_SEED", 1))
+	rounds := venvInt("VERIF_N", 4)
+	o := vopenOut(t)
+	defer o.close()
+	r := newVrand(seed ^ 0xC20)
+	for id := 0; id < rounds; id++ {
+		c := c20tCase{ID: id, MsgLen: []int{5000, 9000, 13000, 700}[r.intn(4)], N: 1500 + r.intn(1500), Pause: 2 + r.intn(6)}
+		cb := &c20tCb{msgLen: c.MsgLen, pauseAt: c.Pause, done: make(chan struct{}), total: uint32(c.N)}
+		conf := testConf()
+		conf.InitializeTimeout = 30 * time.Second
+		cconn, sconn := testConn()
+		ok := make(chan struct{})
+		var server *Session
+		sc := *conf
+		sc.listenCallback = &c20tListen{cb: cb}
+		go func() {
+			var err error
+			server, err = newSession(&sc, sconn, false)
+			if err != nil {
+				server = nil
+			}
+			close(ok)
+		}()
+		cc := *conf
+		client, err := newSession(&cc, cconn, true)
+		<-ok
+		if err != nil || server == nil {
+			c.Skipped = "session pair could not be created"
+			o.emit(c)
+			continue
+		}
+		cs, _ := client.OpenStream()
+		msg := make([]byte, c.MsgLen)
+		sendErr := ""
+		for k := 0; k < c.N && sendErr == ""; k++ {
+			seq := uint32(k)
+			msg[0], msg[1], msg[2], msg[3] = byte(seq>>24), byte(seq>>16), byte(seq>>8), byte(seq)
+			for i := 4; i < c.MsgLen; i++ {
+				msg[i] = byte(seq + uint32(i))
+			}
+			for try := 0; ; try++ {
+				if _, err := cs.BufferWriter().WriteBytes(msg); err != nil {
+					sendErr = err.Error()
+					break
+				}
+				err := cs.Flush(false)
+				if err == nil {
+					break
+				}
+				if try > 2000 {
+					sendErr = err.Error()
+					break
+				}
+				time.Sleep(100 * time.Microsecond) // queue full / no buffer: the receiver is behind
+			}
+		}
+		if sendErr != "" {
+			c.Skipped = "sender could not send everything: " + sendErr
+		} else {
+			select {
+			case <-cb.done:
+			case <-time.After(20 * time.Second):
+				c.Oracle = append(c.Oracle, fmt.Sprintf("no-strand: only %d of %d messages reached OnData within 20 s although nothing more is in flight", cb.next, c.N))
+			}
+		}
+		c.Got, c.Calls = cb.next, cb.calls
+		if cb.bad != "" {
+			c.Oracle = append(c.Oracle, "order/once: "+cb.bad)
+		}
+		if atomic.LoadInt32(&cb.overlap) == 1 {
+			c.Oracle = append(c.Oracle, "serial: OnData ran twice at the same time")
+		}
+		_ = cs.Close()
+		client.Close()
+		server.Close()
+		o.emit(c)
+	}
+}
+
+type c20tListen struct{ cb *c20tCb }
+
+func (l *c20tListen) OnNewStream(s *Stream)    { _ = s.SetCallbacks(l.cb) }
+func (l *c20tListen) OnShutdown(reason string) {}
